@@ -350,6 +350,14 @@ def ars_oracle(f):
     n = call(len, p)
     if n != len(b):
         return ("ars-len", "__len__ differs from the serialised length", len(b), n)
+    # the reported length of the sub-headers the message carries (coverage round: their __len__ was never executed)
+    for name in ("first_header", "registration_request_header", "response_second_header"):
+        h = getattr(p, name, None)
+        if h is not None and hasattr(type(h), "__len__") and hasattr(h, "as_bytes"):
+            hb, hn = call(h.as_bytes), call(len, h)
+            # (a header the message type does not carry may hold values its own encoder refuses: nothing to compare then)
+            if not is_err(hb) and hn != len(hb):
+                return ("ars-len", f"__len__ of the {name} differs from the number of octets it serialises to", len(hb), hn)
     q = call(m.AutomaticRegistrationService.from_bytes, b)
     if is_err(q) or q is None:
         return ("ars-parse-raises", "from_bytes rejected the library's own serialisation", "object", str(q))
